@@ -262,6 +262,31 @@ class Program:
                 if enc is st:
                     self._add_function(mi, sub, None, qual)
 
+    def is_memoised(self, fi: FuncInfo) -> bool:
+        """lru_cache/cache directly, through a module-level alias, or through a package
+        decorator whose body applies lru_cache/cache."""
+        if fi.is_memo:
+            return True
+        mi = self.modules.get(fi.module)
+        if mi is None:
+            return False
+        for d in fi.decorators:
+            base = d.split("(")[0]
+            if "." in base:
+                continue
+            for st in mi.globals_assigned.get(base, []):
+                v = getattr(st, "value", None)
+                if v is not None and any(isinstance(x, ast.Name) and x.id in ("lru_cache", "cache") or
+                                         isinstance(x, ast.Attribute) and x.attr in ("lru_cache", "cache") for x in ast.walk(v)):
+                    return True
+            q = self.resolve_name(mi, base)
+            if q and q in self.functions:
+                body = self.functions[q].node
+                if any(isinstance(x, ast.Name) and x.id in ("lru_cache", "cache") or
+                       isinstance(x, ast.Attribute) and x.attr in ("lru_cache", "cache") for x in ast.walk(body)):
+                    return True
+        return False
+
     # ------------------------------------------------------------- lookups
     def func(self, qual: str) -> FuncInfo:
         f = self.functions.get(qual)
